@@ -300,6 +300,16 @@ func c19Eval(r *core.Run, c *c19Case) {
 			_ = os.WriteFile(src, []byte("package main\n\nfunc unrelated() {}\n"), 0o644)
 		}
 	}
+	if c.Mismatch == "" && c.Idx%4 == 3 {
+		// the local checkout has CRLF line endings (git autocrlf on another platform): same lines, same declarations,
+		// every byte offset after the first line shifted - the frames are to be typed exactly as with LF sources
+		for _, f := range []string{"main.go", "part2.go"} {
+			if b, err := os.ReadFile(filepath.Join(bp.dir, f)); err == nil {
+				_ = os.WriteFile(filepath.Join(bp.dir, f), bytes.ReplaceAll(b, []byte("\n"), []byte("\r\n")), 0o644)
+				r.Count("source_files_with_crlf_line_endings", 1)
+			}
+		}
+	}
 	if c.Mismatch == "mutated-trace" {
 		// sources intact, the traceback itself corrupted (argument lists reshaped, lines spliced ...): source
 		// analysis then meets argument shapes its types do not match. Only "never a crash" is decided here.
